@@ -21,8 +21,17 @@ from __future__ import annotations
 import ast
 import copy
 
-MODELLED = {'run_tape', 'run_script', 'run_auth_scripts', 'run_auth_script', 'run_plugins',
-            'run_sig_extensions', 'set_tape_flags'}
+# module-level functions of functions.py the analyser has models for (by name).  Anything else that
+# is called from VM code is looked into.
+MODELLED = {'bytes_to_int', 'int_to_bytes', 'uint_to_bytes', 'bytes_to_bool', 'bytes_to_float', 'float_to_bytes',
+            'clamp_scalar', 'H_big', 'H_small', 'derive_key_from_seed', 'derive_point_from_scalar',
+            'aggregate_points', 'aggregate_scalars', 'sign_with_scalar', 'not_bytes', 'xor', 'or_bytes',
+            'and_bytes', 'bytes_are_same', '_check_contract', 'add_contract', 'remove_contract',
+            'add_contract_interface', 'remove_contract_interface', 'add_opcode', 'add_alias', 'add_plugin',
+            'remove_plugin', 'reset_plugins', 'run_plugins', 'add_signature_extension',
+            'remove_signature_extension', 'reset_signature_extensions', 'run_sig_extensions', 'set_tape_flags',
+            'run_tape', 'run_script', 'run_auth_scripts', 'run_auth_script'}
+API_PREFIXES = ('add_', 'remove_', 'reset_')
 PRIMITIVE_METHODS = {
     'Tape': {'read', 'move_pointer', 'reset_pointer', 'reset', 'has_terminated', 'remaining', '__init__',
              '__post_init__'},
@@ -154,13 +163,16 @@ class Inliner:
                     for a in list(n.args) + [k.value for k in n.keywords]:
                         if isinstance(a, ast.Name) and env.get(a.id) in VM_CLASSES:
                             receives_vm.add(n.func.id)
+        called = set()
+        for m in (fm, cm):
+            for n in ast.walk(m.tree):
+                if isinstance(n, ast.Call) and isinstance(n.func, ast.Name):
+                    called.add(n.func.id)
         for name, fn in defs.items():
-            if name in table_refs or name in MODELLED:
+            if name in table_refs or name in MODELLED or name.startswith(API_PREFIXES):
                 continue
-            annotated = any(_ann_class(a.annotation) for a in fn.args.posonlyargs + fn.args.args + fn.args.kwonlyargs)
-            if not (annotated or name in receives_vm):
+            if name not in called:
                 continue
-            # registry API (add_/remove_ plugin functions take Callables, not VM state): annotation test above
             self.fn_helpers[name] = fn
         for st in cm.tree.body:
             if isinstance(st, ast.ClassDef) and st.name in VM_CLASSES:
@@ -239,6 +251,20 @@ class Inliner:
                 nb, ch = self._inline_block(c.body, env, fn, chain)
                 c.body = nb
                 changed = changed or ch
+            hoisted = self._hoist(s, env)
+            if hoisted is not None:
+                # `tmp = helper(...)` placed before the statement; expand it right away
+                tmp_assign, tgt_h = hoisted
+                try:
+                    repl = self._expand(tmp_assign.value, tgt_h, 'assign', tmp_assign.targets[0], tmp_assign)
+                    self.notes['inlined'].append(f'{tgt_h[0]} into {fn.name} (line {tmp_assign.value.lineno}, hoisted)')
+                    out += repl
+                except NotInlinable as e:
+                    self.notes['opaque'].append(f'{fn.name}: call to {tgt_h[0]} at line {tmp_assign.value.lineno}: {e}')
+                    out.append(tmp_assign)
+                out.append(s)
+                changed = True
+                continue
             call, mode, target = None, None, None
             if isinstance(s, ast.Expr) and isinstance(s.value, ast.Call):
                 call, mode = s.value, 'expr'
@@ -260,6 +286,94 @@ class Inliner:
             out += repl
             changed = True
         return out, changed
+
+    # ------------------------------------------------------------------
+    def _hoist(self, s: ast.stmt, env):
+        """A helper call nested inside the header expression of statement `s`, in an unconditional
+        position with nothing impure evaluated before it: replace it by a fresh name and return
+        (`tmp = call` statement, target).  None when there is nothing to hoist."""
+        roots = []
+        if isinstance(s, (ast.Expr, ast.Return)) and s.value is not None:
+            if isinstance(s.value, ast.Call) and self._target(s.value, env):
+                return None                    # handled directly
+            roots = [s.value]
+        elif isinstance(s, ast.Assign):
+            if isinstance(s.value, ast.Call) and self._target(s.value, env) and len(s.targets) == 1:
+                return None
+            roots = [s.value]
+        elif isinstance(s, ast.AnnAssign) and s.value is not None:
+            roots = [s.value]
+        elif isinstance(s, ast.AugAssign) and isinstance(s.target, ast.Name):
+            roots = [s.value]
+        elif isinstance(s, (ast.If, ast.Assert)):
+            roots = [s.test]
+        elif isinstance(s, ast.For):
+            roots = [s.iter]
+        if not roots:
+            return None
+        state = {'impure': False, 'found': None, 'blocked': False}
+
+        def visit(e, cond):
+            if state['found'] is not None or state['blocked'] or e is None:
+                return
+            if isinstance(e, ast.Call):
+                visit(e.func, cond)
+                for a in e.args:
+                    visit(a, cond)
+                for k in e.keywords:
+                    visit(k.value, cond)
+                if state['found'] is not None or state['blocked']:
+                    return
+                if self._target(e, env) is not None:
+                    if cond or state['impure']:
+                        state['blocked'] = True
+                    else:
+                        state['found'] = e
+                    return
+                state['impure'] = True
+                return
+            if isinstance(e, ast.IfExp):
+                visit(e.test, cond)
+                visit(e.body, True)
+                visit(e.orelse, True)
+                return
+            if isinstance(e, ast.BoolOp):
+                visit(e.values[0], cond)
+                for v in e.values[1:]:
+                    visit(v, True)
+                return
+            if isinstance(e, (ast.Lambda, ast.ListComp, ast.SetComp, ast.DictComp, ast.GeneratorExp)):
+                for ch in ast.walk(e):
+                    if isinstance(ch, ast.Call) and self._target(ch, env) is not None:
+                        state['blocked'] = True
+                return
+            for ch in ast.iter_child_nodes(e):
+                if isinstance(ch, ast.expr):
+                    visit(ch, cond)
+
+        for r in roots:
+            visit(r, False)
+        call = state['found']
+        if call is None:
+            return None
+        self.counter += 1
+        tmp = f'hoist__i{self.counter}'
+        tgt = self._target(call, env)
+
+        class Rep(ast.NodeTransformer):
+            def visit_Call(self2, n):
+                if n is call:
+                    return ast.copy_location(ast.Name(id=tmp, ctx=ast.Load()), n)
+                self2.generic_visit(n)
+                return n
+        for fld in ('value', 'test', 'iter'):
+            v = getattr(s, fld, None)
+            if isinstance(v, ast.expr):
+                setattr(s, fld, Rep().visit(v))
+        asg = ast.Assign(targets=[ast.Name(id=tmp, ctx=ast.Store())], value=call)
+        ast.copy_location(asg, call)
+        ast.fix_missing_locations(asg)
+        return asg, tgt
 
     # ------------------------------------------------------------------
     def _expand(self, call: ast.Call, tgt, mode, target, stmt):
@@ -348,6 +462,39 @@ class Inliner:
                     out.append(ast.copy_location(asg, s))
                 elif s.value is not None and _contains(s.value, ast.Call):
                     out.append(ast.copy_location(ast.Expr(value=s.value), s))
+                return out
+            if _returns_in([s]) and isinstance(s, ast.Try):
+                # returns only as the last statement of the try body / handlers / else, nothing after the try
+                if stmts[i + 1:] or k or _returns_in(s.finalbody):
+                    raise NotInlinable(f'return inside try followed by more statements (line {s.lineno})')
+                blocks = [s.body] + [h.body for h in s.handlers] + ([s.orelse] if s.orelse else [])
+                for b in blocks:
+                    if _returns_in(b[:-1]) or (b and not isinstance(b[-1], ast.Return) and _returns_in(b[-1:])):
+                        raise NotInlinable(f'return in the middle of a try block (line {s.lineno})')
+
+                def tail(b):
+                    if b and isinstance(b[-1], ast.Return):
+                        r = b[-1]
+                        if ret_target is not None:
+                            v = r.value if r.value is not None else ast.Constant(value=None)
+                            return b[:-1] + [ast.copy_location(ast.Assign(targets=[copy.deepcopy(ret_target)], value=v), r)]
+                        if r.value is not None and _contains(r.value, ast.Call):
+                            return b[:-1] + [ast.copy_location(ast.Expr(value=r.value), r)]
+                        return b[:-1] or [ast.copy_location(ast.Pass(), r)]
+                    if ret_target is not None and b is not s.body:
+                        return b + [ast.copy_location(ast.Assign(targets=[copy.deepcopy(ret_target)],
+                                                                   value=ast.Constant(value=None)), at)]
+                    return b
+                falls_through = not (s.body and isinstance(s.body[-1], ast.Return)) and not s.orelse
+                s.body = tail(s.body)
+                for h in s.handlers:
+                    h.body = tail(h.body)
+                if s.orelse:
+                    s.orelse = tail(s.orelse)
+                elif falls_through and ret_target is not None:
+                    s.orelse = [ast.copy_location(ast.Assign(targets=[copy.deepcopy(ret_target)],
+                                                             value=ast.Constant(value=None)), at)]
+                out.append(s)
                 return out
             if _returns_in([s]):
                 if not isinstance(s, ast.If):
